@@ -48,7 +48,8 @@ theorem valHead_not_trivia' {d : Char} (h : ValHead d) : ¬ trivia d := valHead_
 
 /-- `DefaultValue?`; what follows must not begin with `=`, `.`, `"` -/
 theorem optDefaultT (τ : Trivia) (hτ : ∀ q, Ws (τ q)) (d : Option Value) (hwf : ∀ v ∈ d, WFV v) {sep : Bool} {p : Nat}
-    {bad : Char → Prop} (hb1 : bad '=') (hb2 : ∀ c, c = '.' ∨ c = '"' → bad c) (h : HasAt inp p (rOptDefault τ sep p d))
+    {bad : Char → Prop} (hb1 : bad '=') (hb2 : sep = false → ∀ c, c = '.' ∨ c = '"' → bad c)
+    (h : HasAt inp p (rOptDefault τ sep p d))
     (hn : Nxt inp bad sep (p + (rOptDefault τ sep p d).length)) :
     ∃ o : Option Pair, RunsK (B (rOptDefault τ sep p d).length + 10) (.opt (.call R.DefaultValue)) (At inp p)
         (At inp (p + (rOptDefault τ sep p d).length)) o.toList ∧
@@ -188,7 +189,7 @@ theorem varDefT (τ : Trivia) (hτ : ∀ q, Ws (τ q)) (v : VarDef) (hwf : WFVar
   obtain ⟨prT, rT, hokT, hbT⟩ := (type_all τ hτ v.ty hty).2 sT _ (· = '!') rfl (hT ▸ g3) (by rw [hT]; exact n3)
   rw [hT] at rT hbT
   obtain ⟨oE, rE, hokE, hbE⟩ := optDefaultT τ hτ v.default hdef (bad := fun c => c = '!' ∨ c = '=' ∨ c = '.' ∨ c = '"')
-    (Or.inr (Or.inl rfl)) (fun c hc => Or.inr (Or.inr hc)) (hE ▸ g4) (by rw [hE]; exact n4)
+    (Or.inr (Or.inl rfl)) (fun _ c hc => Or.inr (Or.inr hc)) (hE ▸ g4) (by rw [hE]; exact n4)
   rw [hE] at rE hbE
   obtain ⟨oD, rD, hokD, _, hbD⟩ := optDirsT τ hτ v.dirs hdirs (bad := varBad) (Or.inr (Or.inr (Or.inr (Or.inl rfl))))
     (Or.inr (Or.inr (Or.inl rfl))) (hD ▸ g5) (by rw [hD]; exact hn)
